@@ -1,4 +1,5 @@
 import RxModel.Lemmas.Impl
+import RxModel.Lemmas.Nested
 import RxModel.Bounds
 /-!
 # C03 — the mux event protocol is well-formed at every operator boundary
@@ -59,6 +60,110 @@ theorem C03_all_boundaries : ∀ (P : Pipe) (path : String) (i : Nat) (t : List 
     · rcases hb with rfl | hb
       · exact hs.2 hc
       · exact ih.2 (hs.2 hc) b hb
+
+/-! ## nested pipelines -/
+
+theorem impl_wf {α β} (Q : MuxOp α β) (L : LocalOp α β) (c : Bool) (h : Impl c Q L) (t : List (Ev α)) (hc : CleanTr t) :
+    (WF t → WF (Q.run t).flatten) ∧ (WFClosed t → WFClosed (Q.run t).flatten) := by
+  refine ⟨fun ht => ?_, fun hcl => ?_⟩
+  · rw [h t ht (fun _ => hc)]; exact ref_wf L t ht
+  · rw [h t (wf_of_closed hcl) (fun _ => hc)]; exact ref_wf_closed L t hcl
+
+/-- **output boundary of a nested pipeline** (splitters, tee, any depth), index-addressed implementation -/
+theorem C03_output_nested (P : Pipe) (h : P.Nested) (t : List (Ev Val)) (hc : CleanTr t) :
+    (WF t → WF (P.mux.run t).flatten) ∧ (WFClosed t → WFClosed (P.mux.run t).flatten) :=
+  impl_wf P.mux P.loc true (P.implN h) t hc
+
+/-- **head of every inner pipeline**: what `group_by`, `roll`, `split`, `time_split` send into their
+inner pipeline over a clean well-formed trace is a clean well-formed trace — no two live groups,
+windows or segments share a slot index, every inner key is created before use and completed exactly
+once — and it is closed when the input is closed -/
+theorem C03_inner {α} {sp : Splitter α} {ls : LSplit α} (sim : SplitSim sp ls) (t : List (Ev α)) (ht : WF t) (hc : CleanTr t) :
+    WF (sp.innerTrace sp.init t) ∧ CleanTr (sp.innerTrace sp.init t) ∧
+      (WFClosed t → WFClosed (sp.innerTrace sp.init t)) := split_inner_wf sim t ht hc
+
+/-- the five splitters of rxsci, for every key function, window/stride ≥ 1 and session configuration -/
+theorem C03_inner_splitters (t : List (Ev Val)) (ht : WF t) (hc : CleanTr t) :
+    (∀ f : Val → Val, WF ((groupBySp f).innerTrace (groupBySp f).init t) ∧
+        (WFClosed t → WFClosed ((groupBySp f).innerTrace (groupBySp f).init t))) ∧
+    (∀ w s, 0 < w → 0 < s → WF ((rollSp (α := Val) w s).innerTrace (rollSp w s).init t) ∧
+        (WFClosed t → WFClosed ((rollSp (α := Val) w s).innerTrace (rollSp w s).init t))) ∧
+    (∀ f : Val → Val, WF ((splitSp f).innerTrace (splitSp f).init t) ∧
+        (WFClosed t → WFClosed ((splitSp f).innerTrace (splitSp f).init t))) ∧
+    (∀ c : TsCfg Val, WF ((timeSplitSp c).innerTrace (timeSplitSp c).init t) ∧
+        (WFClosed t → WFClosed ((timeSplitSp c).innerTrace (timeSplitSp c).init t))) :=
+  ⟨fun f => ⟨(split_inner_wf (groupBySim f) t ht hc).1, (split_inner_wf (groupBySim f) t ht hc).2.2⟩,
+   fun w s hw hs => ⟨(split_inner_wf (rollSim w s hs hw) t ht hc).1, (split_inner_wf (rollSim w s hs hw) t ht hc).2.2⟩,
+   fun f => ⟨(split_inner_wf (splitSim f) t ht hc).1, (split_inner_wf (splitSim f) t ht hc).2.2⟩,
+   fun c => ⟨(split_inner_wf (timeSplitSim c) t ht hc).1, (split_inner_wf (timeSplitSim c) t ht hc).2.2⟩⟩
+
+mutual
+/-- **every internal boundary of a nested pipeline** — between stages, at the head of every inner
+pipeline, inside inner pipelines and tee branches, to any depth — carries a well-formed trace,
+closed when the input is -/
+theorem C03_stage_boundaries_nested : ∀ (s : Stage) (path : String) (t : List (Ev Val)), s.Nested → CleanTr t →
+    (WF t → ∀ b ∈ s.bounds path t, WF b.2) ∧ (WFClosed t → ∀ b ∈ s.bounds path t, WFClosed b.2)
+  | .prim _ _, _, _, _, _ => by simp [Stage.bounds]
+  | .wrap sp ls inner, path, t, h, hc => by
+    obtain ⟨⟨sim⟩, hin⟩ := h
+    refine ⟨fun ht b hb => ?_, fun hcl b hb => ?_⟩
+    · obtain ⟨w1, w2, _⟩ := split_inner_wf sim t ht hc
+      have ih := C03_all_boundaries_nested inner path 0 (sp.innerTrace sp.init t) hin w2
+      simp only [Stage.bounds, List.mem_cons] at hb
+      rcases hb with rfl | hb
+      · exact w1
+      · exact ih.1 w1 b hb
+    · obtain ⟨w1, w2, w3⟩ := split_inner_wf sim t (wf_of_closed hcl) hc
+      have ih := C03_all_boundaries_nested inner path 0 (sp.innerTrace sp.init t) hin w2
+      simp only [Stage.bounds, List.mem_cons] at hb
+      rcases hb with rfl | hb
+      · exact w3 hcl
+      · exact ih.2 (w3 hcl) b hb
+  | .tee _ bs, path, t, h, hc => by
+    simp only [Stage.bounds]
+    exact C03_branch_boundaries_nested bs path 0 t h.1 hc
+theorem C03_all_boundaries_nested : ∀ (P : Pipe) (path : String) (i : Nat) (t : List (Ev Val)), P.Nested → CleanTr t →
+    (WF t → ∀ b ∈ P.bounds path i t, WF b.2) ∧ (WFClosed t → ∀ b ∈ P.bounds path i t, WFClosed b.2)
+  | .nil, _, _, _, _, _ => by simp [Pipe.bounds]
+  | .cons s rest, path, i, t, h, hc => by
+    obtain ⟨hs, hr, hor⟩ := h
+    have hsb := C03_stage_boundaries_nested s (path ++ "/" ++ toString i) t hs hc
+    have hout := impl_wf s.mux s.loc true (s.implN hs) t hc
+    have hrest : WF t → (WF (flatRun s.mux t) → ∀ b ∈ rest.bounds path (i + 1) (flatRun s.mux t), WF b.2) ∧
+        (WFClosed (flatRun s.mux t) → ∀ b ∈ rest.bounds path (i + 1) (flatRun s.mux t), WFClosed b.2) := by
+      intro ht
+      rcases hor with hsup | hcl
+      · exact C03_all_boundaries rest path (i + 1) (flatRun s.mux t) hsup
+      · have hclean : CleanTr (flatRun s.mux t) := by
+          unfold flatRun
+          rw [s.implN hs t ht (fun _ => hc)]
+          exact clean_ref s.loc (s.clean_loc hcl) t _ hc
+        exact C03_all_boundaries_nested rest path (i + 1) (flatRun s.mux t) hr hclean
+    simp only [Pipe.bounds, List.mem_append, List.mem_cons, List.not_mem_nil, or_false]
+    refine ⟨fun ht b hb => ?_, fun hcl b hb => ?_⟩
+    · rcases hb with (hb | rfl) | hb
+      · exact hsb.1 ht b hb
+      · exact hout.1 ht
+      · exact (hrest ht).1 (hout.1 ht) b hb
+    · rcases hb with (hb | rfl) | hb
+      · exact hsb.2 hcl b hb
+      · exact hout.2 hcl
+      · exact (hrest (wf_of_closed hcl)).2 (hout.2 hcl) b hb
+theorem C03_branch_boundaries_nested : ∀ (bs : Pipes) (path : String) (n : Nat) (t : List (Ev Val)), bs.Nested → CleanTr t →
+    (WF t → ∀ b ∈ bs.bounds path n t, WF b.2) ∧ (WFClosed t → ∀ b ∈ bs.bounds path n t, WFClosed b.2)
+  | .nil, _, _, _, _, _ => by simp [Pipes.bounds]
+  | .cons p rest, path, n, t, h, hc => by
+    have h1 := C03_all_boundaries_nested p (path ++ "/b" ++ toString n) 0 t h.1 hc
+    have h2 := C03_branch_boundaries_nested rest path (n + 1) t h.2 hc
+    simp only [Pipes.bounds, List.mem_append]
+    refine ⟨fun ht b hb => ?_, fun hcl b hb => ?_⟩
+    · rcases hb with hb | hb
+      · exact h1.1 ht b hb
+      · exact h2.1 ht b hb
+    · rcases hb with hb | hb
+      · exact h1.2 hcl b hb
+      · exact h2.2 hcl b hb
+end
 
 /-! non-vacuity: a concrete well-formed trace with slot reuse -/
 example : WF ([.create [5], .next [5] 1, .create [2], .done [5], .create [5, 1], .next [2] 3] : List (Ev Nat)) := by
